@@ -264,47 +264,89 @@ fn c01_curve_fidelity_normalised() {
 const ATT_MAX_STEP: f64 = 0.0017687427;
 const DEC_MAX_STEP: f64 = 0.0039753;
 
-// @family prop=C01,C03 name=c03_curve_slice macro=c03_curve_slice n=256 quick=0,1,127,128,254,255 seeded=2 timeout=1500
-// @about slice k = the 2^16 consecutive counter values [k*2^16,(k+1)*2^16) (4 table cells), BOTH tables, normalised segments (attack 0->1, release 1->0), acc symbolic in the slice: (a) |out(acc) - I(acc)| <= 2^-23 where I is the exact (f64) linear interpolant of the table with in-cell fraction low14/2^14 and the neighbour clamped at the last entry; (b) adjacent counter values: attack never decreases, release never increases (monotone within a phase), and |out(acc+1) - out(acc)| <= steepest table step * 2^-14 + 2 ulp: interpolated, not a staircase. quick: first/last/middle slices + VERIF_SEED-chosen; thorough: all 256 = all 2^24 values
-macro_rules! c03_curve_slice {
+// @harness prop=C01,C03 tier=quick timeout=900
+// @about all 2^24 counter values of both tables at once (cheap range-class query), normalised segments: the output lies between the two table points of its cell (upper neighbour clamped at the last entry), +-2^-23. With the tables monotone from entry to entry (c03_table_facts) this makes the output monotone ACROSS cells for every pair of positions; monotonicity inside a cell is obligation (b) of the slices
+#[kani::proof]
+fn c01_between_cell_neighbours() {
+    let acc: u32 = kani::any();
+    kani::assume(acc <= ACC_MAX);
+    let rel: bool = kani::any();
+    let mut a = Adsr::new(1000.0);
+    a.state = if rel { State::Release } else { State::Attack };
+    a.value_when_gate_on_received = 0.0;
+    a.value_when_gate_off_received = 1.0;
+    set_acc(&mut a, acc);
+    let y = a.calc_value();
+    let i = (acc >> 14) as usize;
+    let j = if i + 1 < 1024 { i + 1 } else { 1023 };
+    let (t0, t1) = if rel {
+        (lookup_tables::ADSR_DECAY_TABLE[i], lookup_tables::ADSR_DECAY_TABLE[j])
+    } else {
+        (lookup_tables::ADSR_ATTACK_TABLE[i], lookup_tables::ADSR_ATTACK_TABLE[j])
+    };
+    let (lo, hi) = if t0 < t1 { (t0, t1) } else { (t1, t0) };
+    vassert!(y >= lo - 1.1920929e-7 && y <= hi + 1.1920929e-7, "C01/curve/between-the-two-table-points-of-its-cell");
+    if acc & 0x3fff == 0 {
+        vassert!(y == t0, "C01/curve/cell-start-is-the-table-entry");
+    }
+    vcover!(rel && i == 1023, "witness: last release cell");
+    vcover!(!rel && acc & 0x3fff == 0 && i == 512, "witness: cell start");
+}
+
+// @family prop=C03 tprop=C01 name=c03_attack_slice macro=c03_attack_slice n=256 quick=0,128,255 seeded=1 thorough=0,8,16,24,32,40,48,56,64,72,80,88,96,104,112,120,128,136,144,152,160,168,176,184,192,200,208,216,224,232,240,248,255 tseeded=16 timeout=1500
+// @about slice k = the 2^16 consecutive counter values [k*2^16,(k+1)*2^16) (4 table cells) of the ATTACK table, normalised segment (0 -> 1), acc symbolic in the slice: (a) |out(acc) - I(acc)| <= 2^-23 where I is the exact (f64) linear interpolant of the table with in-cell fraction low14/2^14 and the neighbour clamped at the last entry; (b) adjacent counter values: out never decreases and out(acc+1) - out(acc) <= steepest table step * 2^-14 + 2 ulp: interpolated, not a staircase. quick: first/middle/last slice + one VERIF_SEED-chosen; thorough: every 8th slice + 16 VERIF_SEED-chosen (49 of 256; a full sweep of one table costs about 20 core-hours)
+macro_rules! c03_attack_slice {
     ($name:ident, $k:expr) => {
         #[kani::proof]
         fn $name() {
-            let low: u32 = kani::any();
-            kani::assume(low < (1 << 16));
-            let acc: u32 = (($k as u32) << 16) | low;
-            kani::assume(acc < ACC_MAX);
-            let rel: bool = kani::any();
-            let mut a = Adsr::new(1000.0);
-            a.state = if rel { State::Release } else { State::Attack };
-            a.value_when_gate_on_received = 0.0;
-            a.value_when_gate_off_received = 1.0;
-            set_acc(&mut a, acc);
-            let y = a.calc_value();
-            let i = (acc >> 14) as usize;
-            let j = if i + 1 < 1024 { i + 1 } else { 1023 };
-            let (t0, t1) = if rel {
-                (lookup_tables::ADSR_DECAY_TABLE[i] as f64, lookup_tables::ADSR_DECAY_TABLE[j] as f64)
-            } else {
-                (lookup_tables::ADSR_ATTACK_TABLE[i] as f64, lookup_tables::ADSR_ATTACK_TABLE[j] as f64)
-            };
-            let fr = (acc & 0x3fff) as f64 / 16384.0;
-            let e = y as f64 - (t0 + (t1 - t0) * fr);
-            vassert!(e <= 1.1920928955078125e-7 && e >= -1.1920928955078125e-7, "C03/curve/is-the-linear-interpolant-of-the-table");
-            set_acc(&mut a, acc + 1);
-            let y2 = a.calc_value();
-            let d = y2 as f64 - y as f64;
-            let step = (if rel { DEC_MAX_STEP } else { ATT_MAX_STEP }) / 16384.0 + 2.0 * 1.1920928955078125e-7;
-            if rel {
-                vassert!(d <= 0.0, "C01/release/non-increasing-within-phase");
-            } else {
-                vassert!(d >= 0.0, "C01/attack/non-decreasing-within-phase");
-            }
-            vassert!(d <= step && d >= -step, "C03/curve/adjacent-positions-differ<=steepest-slope*step+2ulp");
-            vcover!(acc & 0x3fff == 0x3fff, "witness: pair crosses a cell boundary");
-            vcover!(rel, "witness: decay table");
+            curve_slice_body($k, false);
         }
     };
+}
+
+// @family prop=C03 tprop=C01 name=c03_release_slice macro=c03_release_slice n=256 quick=0,128,255 seeded=1 thorough=0,8,16,24,32,40,48,56,64,72,80,88,96,104,112,120,128,136,144,152,160,168,176,184,192,200,208,216,224,232,240,248,255 tseeded=16 timeout=1500
+// @about as c03_attack_slice for the DECAY table (used by decay and release), normalised segment (1 -> 0): (a) output equals the exact interpolant within 2^-23; (b) adjacent counter values never increase and differ by <= steepest table step * 2^-14 + 2 ulp
+macro_rules! c03_release_slice {
+    ($name:ident, $k:expr) => {
+        #[kani::proof]
+        fn $name() {
+            curve_slice_body($k, true);
+        }
+    };
+}
+
+fn curve_slice_body(k: u32, rel: bool) {
+    let low: u32 = kani::any();
+    kani::assume(low < (1 << 16));
+    let acc: u32 = (k << 16) | low;
+    kani::assume(acc < ACC_MAX);
+    let mut a = Adsr::new(1000.0);
+    a.state = if rel { State::Release } else { State::Attack };
+    a.value_when_gate_on_received = 0.0;
+    a.value_when_gate_off_received = 1.0;
+    set_acc(&mut a, acc);
+    let y = a.calc_value();
+    let i = (acc >> 14) as usize;
+    let j = if i + 1 < 1024 { i + 1 } else { 1023 };
+    let (t0, t1) = if rel {
+        (lookup_tables::ADSR_DECAY_TABLE[i] as f64, lookup_tables::ADSR_DECAY_TABLE[j] as f64)
+    } else {
+        (lookup_tables::ADSR_ATTACK_TABLE[i] as f64, lookup_tables::ADSR_ATTACK_TABLE[j] as f64)
+    };
+    let fr = (acc & 0x3fff) as f64 / 16384.0;
+    let e = y as f64 - (t0 + (t1 - t0) * fr);
+    vassert!(e <= 1.1920928955078125e-7 && e >= -1.1920928955078125e-7, "C03/curve/is-the-linear-interpolant-of-the-table");
+    set_acc(&mut a, acc + 1);
+    let y2 = a.calc_value();
+    let d = y2 as f64 - y as f64;
+    let step = (if rel { DEC_MAX_STEP } else { ATT_MAX_STEP }) / 16384.0 + 2.0 * 1.1920928955078125e-7;
+    if rel {
+        vassert!(d <= 0.0, "C01/release/non-increasing-within-phase");
+    } else {
+        vassert!(d >= 0.0, "C01/attack/non-decreasing-within-phase");
+    }
+    vassert!(d <= step && d >= -step, "C03/curve/adjacent-positions-differ<=steepest-slope*step+2ulp");
+    vcover!(acc & 0x3fff == 0x3fff, "witness: pair crosses a cell boundary");
 }
 
 // @harness prop=C03,C01 tier=quick timeout=600
@@ -406,7 +448,7 @@ fn c02_tick_state_machine() {
 }
 
 // @harness prop=C02 tier=quick timeout=900
-// @about which time a tick uses (concrete instance: 1 kHz; attack 0.5 s, decay 0.25 s, release 2 s stored -- all three distinct): from any phase and any counter value the increment installed by tick() is the one PhaseAccumulator::set_period gives for the time of the CURRENT phase (differential against the real function), so a time changed in mid-phase applies to the remaining part of that phase from the next tick on; the stored output equals calc_value() of the new state
+// @about which time a tick uses (concrete instance: 1 kHz; attack 0.5 s, decay 0.25 s, release 2 s stored -- all three distinct): from any phase and any counter value the increment installed by tick() is the one PhaseAccumulator::set_period gives for the time of the CURRENT phase (differential against the real function), so a time changed in mid-phase applies to the remaining part of that phase from the next tick on
 #[kani::proof]
 fn c02_tick_uses_time_of_current_phase() {
     let mut a = any_adsr(1000.0);
@@ -422,7 +464,6 @@ fn c02_tick_uses_time_of_current_phase() {
         vassert!(a.phase_accumulator.verif_inc() == p.verif_inc(), "C02/tick/increment-is-that-of-the-current-phase-time");
         vassert!(p.verif_inc() >= 1, "C02/tick/increment-at-least-one-counter-step");
     }
-    vassert!(a.value.to_bits() == a.calc_value().to_bits(), "C01/tick/output-is-calc_value-of-new-state");
     vcover!(before.state == State::Decay, "witness: decay");
     vcover!(before.state == State::Release, "witness: release");
 }
@@ -470,4 +511,24 @@ fn c17_increment_positive_and_bounded() {
     vassert!(p.verif_inc() <= 10 * (1 << 24) + 64, "C17/increment/within-the-bound-tick-is-proved-for");
     vcover!(t.0 == 20.0 && fs == 192_000.0, "witness: slowest phase");
     vcover!(t.0 == 0.001 && fs == 100.0, "witness: fastest phase");
+}
+
+/// probe standing in for calc_value(): encodes exactly which state it was evaluated in
+fn calc_probe(a: &Adsr) -> f32 {
+    let st = match a.state { State::AtRest => 0u32, State::Attack => 1, State::Decay => 2, State::Sustain => 3, State::Release => 4 };
+    f32::from_bits((st << 24) | a.phase_accumulator.verif_acc())
+}
+
+// @harness prop=C01,C03 tier=quick timeout=900 stub=1
+// @about structure of tick(): with calc_value() replaced by a probe that encodes the (phase, counter) it is evaluated in (Kani stub), one tick() from any Inv_adsr state at any sample rate stores the probe value of the NEW state -- i.e. the output is always calc_value() of the state after the counter advanced and after any phase transition, never of the old state. Together with the calc_value() obligations (range, joints, curve), which hold for every state, this transfers them to value() after every tick
+#[kani::proof]
+#[kani::stub(Adsr::calc_value, calc_probe)]
+fn c01_tick_stores_calc_value_of_new_state() {
+    let fs: f32 = kani::any();
+    kani::assume(fs >= 100.0 && fs <= 192_000.0);
+    let mut a = any_adsr(fs);
+    a.tick();
+    vassert!(a.value.to_bits() == calc_probe(&a).to_bits(), "C01/tick/output-is-calc_value-of-new-state");
+    vcover!(a.state == State::Decay && a.phase_accumulator.verif_acc() == 0, "witness: just entered decay");
+    vcover!(a.state == State::Attack && a.phase_accumulator.verif_acc() > 0, "witness: mid-attack");
 }
